@@ -2,7 +2,8 @@
 CFG = {
     "count": {"quick": 12000, "thorough": 480000},
     "lean_files": ["GeoModel/BoolGlue.lean", "GeoModel/BoolSpec.lean", "GeoModel/Ops/C04.lean", "GeoModel/Winding.lean",
-                   "GeoModel/RelateSpec.lean", "GeoModel/Valid.lean", "GeoModel/Area.lean"],
+                   "GeoModel/RelateSpec.lean", "GeoModel/Valid.lean", "GeoModel/Area.lean",
+                   "GeoProofs/Lemmas/C04Wind.lean", "GeoProofs/Lemmas/C04Locate.lean"],
     "rule": "55% pairs (A, B) of Polygon / MultiPolygon operands on one shared 3..8 grid (polyomino polygons with holes incl. holes tangent to "
             "the shell, star polygons with oblique edges, rectangles with holes, corner-touching / side-by-side multipolygons; identical operands, "
             "a second representation of the same point set, empty Polygon / MultiPolygon operands; a quarter with repeated vertices incl. a repeated "
